@@ -163,8 +163,36 @@ Cyc1(i, eff) ==
        [] eff.kind = "mem" -> LatMem
        [] OTHER -> 0)
 
+(* ---- cycle-exact ledgers of the two other sequential variants (C12) ---- *)
+(* MVP-2: one instruction window [from, from+64] (both ends included) replaces the    *)
+(* per-instruction memory fetch; everything else as MVP-1.                            *)
+Fetch2(win, pc) == IF pc >= win[1] /\ pc <= win[2] THEN LatL1 ELSE LatMem
+Win2(win, pc) == IF pc >= win[1] /\ pc <= win[2] THEN win ELSE <<pc, pc + 64>>
+(* MVP-3: LRU caches of 16 lines of 64 bytes, MRU first.  Instruction lines start at  *)
+(* the first missing pc; data lines are aligned.                                      *)
+CacheLines3 == 16
+CovI(b, a) == b <= a /\ a < b + 64
+HitIdx(c, a) == {k \in 1 .. Len(c) : CovI(c[k], a)}
+TouchLRU(c, a) == IF HitIdx(c, a) = {} THEN c
+                  ELSE LET k == CHOOSE x \in HitIdx(c, a) : \A y \in HitIdx(c, a) : x <= y
+                       IN <<c[k]>> \o SubSeq(c, 1, k - 1) \o SubSeq(c, k + 1, Len(c))
+PushLRU(c, b) == LET n == <<b>> \o c IN IF Len(n) > CacheLines3 THEN SubSeq(n, 1, CacheLines3) ELSE n
+Cyc3(i, eff, l1i, l1d, pc) ==
+  (IF HitIdx(l1i, pc) # {} THEN LatL1 ELSE LatMem) + LatDecode
+  + (IF i.op \in LoadOps /\ eff.kind = "reg" THEN LatL1 + (IF HitIdx(l1d, eff.addr) # {} THEN 0 ELSE LatMem) ELSE 0)
+  + ExecCycles(i.op)
+  + (CASE eff.kind = "reg" -> LatReg
+       [] eff.kind = "mem" -> IF HitIdx(l1d, eff.addr) # {} THEN LatL1 ELSE LatMem
+       [] OTHER -> 0)
+L1I3(l1i, pc) == IF HitIdx(l1i, pc) # {} THEN TouchLRU(l1i, pc) ELSE PushLRU(l1i, pc)
+L1D3(i, eff, l1d) ==
+  IF i.op \in LoadOps /\ eff.kind = "reg"
+  THEN IF HitIdx(l1d, eff.addr) # {} THEN TouchLRU(l1d, eff.addr) ELSE PushLRU(l1d, eff.addr - (eff.addr % 64))
+  ELSE IF eff.kind = "mem" THEN TouchLRU(l1d, eff.addr) ELSE l1d
+
 InitState(regs) ==
   [pc |-> 0, regs |-> regs, mem |-> <<>>, status |-> "run", n |-> 0, cyc1 |-> 0,
+   cyc2 |-> 0, win2 |-> <<-1, -1>>, cyc3 |-> 0, l1i3 |-> <<>>, l1d3 |-> <<>>,
    ev |-> <<>>]
 
 (* one sequential step *)
@@ -175,6 +203,9 @@ Step(prog, st, img, memSize) ==
     LET i == prog[st.pc \div 4 + 1]
         e == Effect(i, st.pc, st.regs, st.mem, img, memSize, Len(prog))
         st1 == [st EXCEPT !.n = @ + 1, !.cyc1 = @ + Cyc1(i, e),
+                          !.cyc2 = @ + Cyc1(i, e) - LatMem + Fetch2(st.win2, st.pc), !.win2 = Win2(@, st.pc),
+                          !.cyc3 = @ + Cyc3(i, e, st.l1i3, st.l1d3, st.pc),
+                          !.l1i3 = L1I3(@, st.pc), !.l1d3 = L1D3(i, e, @),
                           \* ev: executed instruction index, accessed address (-1 if none), taken control transfer
                           !.ev = Append(@, [i |-> st.pc \div 4,
                                             a |-> IF e.kind \in {"reg", "mem"} /\ i.op \in LoadOps \cup StoreOps THEN e.addr ELSE -1,
